@@ -9,11 +9,15 @@ import (
 
 // One profile + monitor set per stateful property.
 var (
-	profC01 = eng.ProfileFull("C01", nil)
+	profC01 = eng.ProfileFull("C01", map[string]int{"bulkHolders": 1})
 	profC02 = eng.ProfileFull("C02", map[string]int{"createBatch": 8, "mint": 10, "bridgeReceive": 6, "seal": 5, "addBridgeChain": 2})
 	profC04 = eng.ProfileFull("C04", map[string]int{"retire": 8, "send": 10, "take": 9, "buy": 10})
 	profC06 = eng.ProfileFull("C06", map[string]int{"sell": 14, "updSell": 12, "cancelSell": 6, "buy": 14, "block": 12, "removeDenom": 2, "addDenom": 2, "bulkOrders": 1})
-	profC03 = eng.ProfileFull("C03", map[string]int{"sendFromPool": 3, "burnRegen": 2, "buy": 12, "sell": 10, "bankSend": 5})
+	profC03 = func() *eng.Profile {
+		p := eng.ProfileFull("C03", map[string]int{"sendFromPool": 3, "burnRegen": 2, "buy": 12, "sell": 10, "bankSend": 5, "bulkOrders": 1})
+		p.VestingPct = 15
+		return p
+	}()
 	profC05 = withPrelude(eng.ProfileFull("C05", map[string]int{"put": 16, "take": 14, "bankSend": 8, "basketCreate": 5, "createBatch": 8, "bulkBasket": 1}),
 		"createClass", "createProject", "createBatch", "createBatch", "basketCreate", "basketCreate", "put", "put", "put", "bankSend", "block")
 	profC13 = withPrelude(eng.ProfileFull("C13", map[string]int{"createBatch": 9, "mint": 9, "bridgeReceive": 12, "bridge": 9, "addBridgeChain": 3, "removeBridgeChain": 2}),
@@ -23,7 +27,11 @@ var (
 		p.PrefixIDs = true
 		return p
 	}()
-	profC07 = eng.ProfileFull("C07", map[string]int{"sell": 14, "buy": 22, "setFeeParams": 5, "updSell": 6, "addDenom": 3, "faucet": 2, "put": 3, "take": 3})
+	profC07 = func() *eng.Profile {
+		p := eng.ProfileFull("C07", map[string]int{"sell": 14, "buy": 22, "setFeeParams": 5, "updSell": 6, "addDenom": 3, "faucet": 2, "put": 3, "take": 3})
+		p.VestingPct = 20
+		return p
+	}()
 	profC11 = withPrelude(eng.ProfileFull("C11", map[string]int{"put": 20, "take": 16, "basketCreate": 7, "updDateCriteria": 4, "createBatch": 12, "block": 10, "bankSend": 4, "bulkBasket": 1}),
 		"createClass", "createProject", "createBatch", "createBatch", "createBatch", "basketCreate", "put", "put", "put", "take", "block")
 	profC08 = eng.ProfileFull("C08", map[string]int{"updClassAdmin": 6, "updClassIssuers": 6, "updClassMeta": 4, "updProjectAdmin": 5, "updProjectMeta": 4, "updBatchMeta": 5,
@@ -64,7 +72,7 @@ func c09() (*eng.Profile, func() []eng.Monitor) {
 }
 
 var profC16 = func() *eng.Profile {
-	p := &eng.Profile{Name: "C16", Weights: map[string]int{"anchor": 12, "attest": 8, "defineResolver": 4, "registerResolver": 8, "block": 6, "restart": 1, "createClass": 1},
+	p := &eng.Profile{Name: "C16", Weights: map[string]int{"anchor": 12, "attest": 8, "defineResolver": 4, "registerResolver": 8, "block": 6, "restart": 1, "createClass": 1, "speculate": 2, "bulkAttest": 1},
 		Prelude: []string{"anchor", "anchor", "defineResolver", "block"}, HashPool: 14}
 	p.Hashers = []eng.HasherSpec{{}, {Kind: "minlen", MinLen: 1}, {Kind: "minlen", MinLen: 8}, {Kind: "minlen", MinLen: 2}}
 	for _, k := range []int{1, 2, 3, 16} {
@@ -78,7 +86,7 @@ var profC16 = func() *eng.Profile {
 func monsC16() []eng.Monitor { return []eng.Monitor{&mon.C16{}} }
 func c17() (*eng.Profile, func() []eng.Monitor) {
 	p := eng.ProfileFull("C17", map[string]int{"query": 30, "get": 8, "anchor": 4, "attest": 5, "defineResolver": 4, "registerResolver": 5,
-		"createClass": 5, "createProject": 6, "createBatch": 8, "sell": 10, "updClassAdmin": 2, "updProjectAdmin": 2, "bulkOrders": 1, "bulkBasket": 1})
+		"createClass": 5, "createProject": 6, "createBatch": 8, "sell": 10, "updClassAdmin": 2, "updProjectAdmin": 2, "bulkOrders": 1, "bulkBasket": 1, "bulkAttest": 1, "bulkHolders": 2})
 	p.PrefixIDs = true
 	var cur *mon.C17
 	p.Custom = map[string]func(w *eng.World){"query": func(w *eng.World) { cur.QueryStep(w) }, "get": func(w *eng.World) { cur.SingleStep(w) }}
@@ -87,7 +95,7 @@ func c17() (*eng.Profile, func() []eng.Monitor) {
 
 var profC18 = func() *eng.Profile {
 	p := &eng.Profile{Name: "C18", Weights: map[string]int{"updClassFee": 8, "updBasketFee": 8, "setFeeParams": 10, "setAllowlist": 3, "addCreator": 3, "removeCreator": 2,
-		"addDenom": 3, "removeDenom": 2, "createClass": 6, "basketCreate": 6, "createProject": 2, "createBatch": 3, "sell": 3, "buy": 4, "put": 2, "take": 2, "block": 3, "faucet": 1, "addCreditType": 1},
+		"addDenom": 3, "removeDenom": 2, "createClass": 6, "basketCreate": 6, "createProject": 2, "createBatch": 3, "sell": 3, "buy": 4, "put": 2, "take": 2, "block": 3, "faucet": 1, "addCreditType": 1, "speculate": 3},
 		Prelude: []string{"createClass", "createProject", "createBatch"}, RemapAny: true}
 	p.AllowZeroFeeGenesis = true
 	p.AllowEmptyDenoms = true
